@@ -54,7 +54,20 @@ func roundTripParsed(e *vk.Errs, what string, p1 *profile.Profile) {
 	var b2 bytes.Buffer
 	p2.WriteUncompressed(&b2)
 	if !bytes.Equal(b1.Bytes(), b2.Bytes()) {
-		e.Addf("%s: re-serialisation not byte-identical (%d vs %d bytes)", what, b1.Len(), b2.Len())
+		// allowed only when the parser itself returned a label that the proto cannot carry
+		// (legacy heap records with a zero count get bytes:[0]): then the second round must be stable
+		if model.Snap(p1, model.SnapOpts{Norm: true}) == s1 {
+			e.Addf("%s: re-serialisation not byte-identical (%d vs %d bytes)", what, b1.Len(), b2.Len())
+		} else if p3, err := profile.ParseData(b2.Bytes()); err != nil {
+			e.Addf("%s: second round does not parse: %v", what, err)
+		} else {
+			var b3 bytes.Buffer
+			p3.WriteUncompressed(&b3)
+			if !bytes.Equal(b2.Bytes(), b3.Bytes()) {
+				e.Addf("%s: re-serialisation not byte-identical after normalisation (%d vs %d bytes)", what, b2.Len(), b3.Len())
+			}
+		}
+		b1 = b2
 	}
 	var gz bytes.Buffer
 	if err := p2.Write(&gz); err != nil {
